@@ -391,6 +391,10 @@ def compile_model(P, calls):
     for a in range(C.npreds):
         rk(a)
     C.fuel = max(rank.values()) + 2
+    C.rank = rank
+    C.arity = {i: ar for (_, ar), i in C.pred.items()}
+    for g in C.aux:
+        C.arity[g] = C.defs[g][0].split(")")[0].count("v")
     C.prog = "(%s)" % " ".join("(%d %s)" % (a, " ".join(cs)) for a, cs in sorted(C.defs.items()))
     C.bases = "(%s)" % " ".join("(%d %d)" % kv for kv in sorted(C.namebase.items()))
     return C
@@ -426,6 +430,13 @@ def model_line(C, calls, sched):
                                        atom_name(C, a)) for l, a in calls)
     sc = " ".join("((%s) %s)" % (g, " ".join(map(str, code))) for g, code in sorted(sched.items()))
     return "GROUNDFO %s %d %s %s (%s) (%s) %d" % (ground_util.OPTS, C.nc, C.prog, C.bases, cs, sc, C.fuel)
+
+
+def specok_line(C):
+    """Input of `Drivers.GroundFOCheck`: are the hypotheses `SpecOK` of the proved correctness theorem true of the program?"""
+    return "SPECOK %d %s %s %d (%s) (%s)" % (C.nc, C.prog, C.bases, C.natoms,
+                                             " ".join("(%d %d)" % kv for kv in sorted(C.arity.items())),
+                                             " ".join("(%d %d)" % kv for kv in sorted(C.rank.items())))
 
 
 def check_line(C, calls, sched, nworlds=8):
@@ -725,6 +736,14 @@ THEOREMS = [
     "ProbLogProofs.C01GroundFO.GroundFO_valuation_exists_partial",
 ]
 # the link between the model's program (auxiliary AD-body goals) and the inlined program sent to `Sem`, ground case
+# semantic correctness of the first-order model relative to the first-order completion (IsModelFO); per check its own part
+MODULE_SEM = "ProbLogProofs.Properties.C01GroundFOSem"
+THEOREMS_SEM = {
+    "all": ["ProbLogProofs.C01GroundFO.C01_groundFO_correct_partial", "ProbLogProofs.C01GroundFO.GroundFO_table_sem_partial",
+            "ProbLogProofs.GroundFOSem.unifOK"],
+    "sched": ["ProbLogProofs.C01GroundFO.C03_groundFO_schedule_independent_partial"],
+    "history": ["ProbLogProofs.C01GroundFO.C08_groundFO_history_independent_partial"],
+}
 MODULE_SPEC = "ProbLogProofs.Properties.C01GroundFOSpec"
 THEOREMS_SPEC = [
     "ProbLogProofs.C01GroundFO.toSemRules_eq",
@@ -766,6 +785,7 @@ def phase(ctx, kind, nq, nt):
     """kind: "all" (C01), "sched" (C03), "history" (C08) - as `ground_util.phase`, on programs with variables."""
     from lib import pmap
     ctx.proof_phase(MODULE, _theorems())
+    ctx.proof_phase(MODULE_SEM, THEOREMS_SEM[kind])
     if kind == "all":
         ctx.proof_phase(MODULE_INLINE, THEOREMS_INLINE)
     drv = ctx.driver("Drivers.GroundFO")
@@ -836,17 +856,40 @@ def phase(ctx, kind, nq, nt):
     semantic_check(ctx, sdrv, items, reals, kind, rng)
 
 
+MODULE_FULL = "ProbLogProofs.Properties.C01GroundFOFull"
+THEOREMS_FULL = {
+    "all": ["ProbLogProofs.C01GroundFO.C01_groundFO_correct_wfm_partial",
+            "ProbLogProofs.C01GroundFO.C01_groundFO_correct_truthFO_partial",
+            "ProbLogProofs.GroundFOSem.mspec_isModelFO", "ProbLogProofs.GroundFOSem.specOKb_sound",
+            "ProbLogProofs.C01GroundFO.exF2_specOK", "ProbLogProofs.C01GroundFO.C01_groundFO_correct_wfm_exF2"],
+    "sched": ["ProbLogProofs.C01GroundFO.C03_groundFO_schedule_independent_wfm_partial"],
+    "history": ["ProbLogProofs.C01GroundFO.C08_groundFO_history_independent_wfm_partial"],
+}
+
+
 def semantic_check(ctx, sdrv, items, reals, kind, rng):
-    """The statement `C01GroundFO.CorrectFO` is not a theorem yet: it is CHECKED per program by executing the Lean
-    definitions (`Drivers.GroundFOCheck`): in several worlds every reported key of the model evaluates to `Sem.wfm` of the
-    Herbrand instantiation `GroundFO.inst`, and every instance that is not reported is false - under the recorded
-    schedule and under an arbitrary one."""
+    """The statement `C01GroundFO.CorrectFO` is CHECKED per program by executing the Lean definitions
+    (`Drivers.GroundFOCheck`): in several worlds every reported key of the model evaluates to `Sem.wfm` of the Herbrand
+    instantiation `GroundFO.inst`, and every instance that is not reported is false - under the recorded schedule and
+    under an arbitrary one.  It is also PROVED for the model in partial-correctness form (`C01GroundFOFull.lean`:
+    whenever the model returns; hypotheses `SpecOK`, decided per program below); the executable check stays as the
+    independent test of the statement and covers termination on the programs run."""
     if kind == "all":
         ctx.proof_phase(MODULE_SPEC, THEOREMS_SPEC)
         ctx.proof_phase(MODULE_TRUTH, THEOREMS_TRUTH)
+    ctx.proof_phase(MODULE_FULL, THEOREMS_FULL[kind])
     cdrv = ctx.driver("Drivers.GroundFOCheck")
     if cdrv is None:
         return
+    # Does the proved theorem (C01_groundFO_correct_wfm_partial) apply to the programs run here?  Its hypotheses
+    # `SpecOK` are decided by the Lean definition `specOKb` (sound: `specOKb_sound`).  A program outside them is not a
+    # finding and not a model defect - only not covered by the theorem - so it is counted, not failed.
+    souts = cdrv.run([specok_line(compile_model(P, calls_of(P, mode))) for (P, mode, _, _) in items])
+    nbadop = sum(1 for o in souts if not o.startswith("spec "))
+    for o in souts:
+        ctx.count("groundfo-model:theorem hypotheses (SpecOK) " + ("hold" if o == "spec t" else "do not hold: " + o))
+    ctx.obligation("hypotheses of the proved first-order theorem decided per program: %d of %d programs covered (%s)" % (
+        sum(1 for o in souts if o == "spec t"), len(souts), kind), nbadop == 0, "%d inputs not understood" % nbadop)
     lines, owners = [], []
     for (P, mode, seed, _), R in zip(items, reals):
         calls = calls_of(P, mode)
